@@ -17,7 +17,7 @@ from sx import Sym, Str
 
 PROP = "C13"
 PROP_FILE = "C13_PE"
-THEOREMS = ["c13_decision_partial", "c13_determining_must_partial", "c13_determining_may_partial",
+THEOREMS = ["c13_peval_sound_partial", "c13_decision_partial", "c13_determining_must_partial", "c13_determining_may_partial",
             "c13_definitely_satisfied_partial", "c13_definitely_errored_partial", "c13_trivially_false_partial"]
 
 MANIFEST = {
